@@ -87,12 +87,29 @@ def dns_dnskey(flags, proto, alg, pub):
     return DNSKEY(dns.rdataclass.IN, dns.rdatatype.DNSKEY, flags, proto, alg, pub)
 
 
+
+
+def steered_pub(flags, alg, n, low16, fold_overflow=False):
+    """n (even) random octets whose RFC 4034 App. B accumulator over RDATA(flags, 3, alg, pub) has the given low 16 bits
+    (e.g. >= 0xFF80: setting the REVOKE bit carries into the next half-word; 0xFFFF with a non-zero high part: the final fold overflows)."""
+    body = rand_bytes(n - 2)
+    rd = bytes([flags >> 8, flags & 255, 3, alg]) + body
+    acc = sum(b if i & 1 else b << 8 for i, b in enumerate(rd))
+    w = (low16 - acc) % 65536
+    pub = body + bytes([w >> 8, w & 255])
+    return pub
+
 # 1 --- key tag / RDATA
-for i in range(350 * N):
+STEER = [(f, a, n, t) for f in (256, 257, 385) for a in (8, 13, 14) for n in ((260,) if a == 8 else (64,) if a == 13 else (96,))
+         for t in (0xFF7F, 0xFF80, 0xFFFF, 0x0000, 0x007F, 0x0080, 0xFFFE)]
+for i in range(350 * N + len(STEER)):
     flags = R.choice([256, 257, 385, 0, 65535, R.randrange(65536), R.randrange(65536)]) if i % 25 else R.choice([-1, 65536, 70000])
     proto = R.choice([3, 3, 3, 0, 255, R.randrange(256)]) if i % 31 else R.choice([-1, 256])
     alg = R.choice(ALGS + [0, 255, R.randrange(256)]) if i % 37 else R.choice([-1, 256, 300])
     pub = pub_material()
+    if i >= 350 * N:
+        flags, alg, n_, t_ = STEER[i - 350 * N]
+        proto, pub = 3, steered_pub(flags, alg, n_, t_)
     k = mk_key(flags, proto, alg, pub)
     ir = vlib.run_impl(key_to_rdata, k)
     it = vlib.run_impl(calculate_key_tag, k)
@@ -218,10 +235,13 @@ def _cap(data=b""):
 
 
 kd.sha256 = _cap
-for i in range(100 * N):
+for i in range(100 * N + len(STEER)):
     flags = R.choice([256, 257, 385])
     alg = R.choice([8, 10, 13, 14])
     pub = rand_bytes(64 if alg == 13 else 96 if alg == 14 else R.choice([67, 131, 260]))
+    if i >= 100 * N:
+        flags, alg, n_, t_ = STEER[i - 100 * N]
+        pub = steered_pub(flags, alg, n_, t_)
     k0 = mk_key(flags, 3, alg, pub, kid="Kds")
     tag = calculate_key_tag(k0)
     k = Key(key_identifier="Kds", key_tag=tag, ttl=172800, flags=flags, protocol=3, algorithm=AlgorithmDNSSEC(alg),
